@@ -1,1 +1,11 @@
-// harnesses for src/sync_blocking (child module, cfg(kani) only)
+// child module of src/sync/blocking.rs (cfg(kani) only).
+//
+// ThreadPark is 12 lines over parking_lot's Mutex + Condvar, neither of which Kani can encode
+// (thread-local ThreadData, futex, std's rtabort stderr formatting).  It is always replaced by a
+// model (per harness) of the token contract it is meant to implement: trusted, never "verified".
+use super::*;
+
+/// the token of a ThreadPark (its mutex-protected word), for the per-harness models
+pub fn thread_token(t: &ThreadPark) -> *mut usize {
+    t.lock.data_ptr()
+}
